@@ -294,3 +294,31 @@ Qed.
 (* total of separated intervals within [lo,hi] is bounded by the span, and is nonnegative *)
 Lemma total_cons i l : total (i :: l) = (snd i - fst i) + total l.
 Proof. reflexivity. Qed.
+
+(* merged groups stay inside any window that contains the input *)
+Lemma smerge_bounds lo hi : forall l cs ce,
+  lo <= cs -> ce <= hi -> cs <= ce -> Forall (fun i => lo <= fst i /\ snd i <= hi /\ fst i <= snd i) l ->
+  Forall (fun i => lo <= fst i /\ snd i <= hi) (smerge_aux cs ce l).
+Proof.
+  induction l as [|[s e] r IH]; intros cs ce H1 H2 H3 Hall; simpl.
+  - constructor; [simpl; lia | constructor].
+  - inversion Hall as [|? ? [Ha [Hb Hc]] Hall']; subst. simpl in Ha, Hb, Hc.
+    destruct (ce <? s).
+    + constructor; [simpl; lia|]. apply IH; auto.
+    + apply IH; auto; lia.
+Qed.
+
+Theorem merge_sorted_bounds l lo hi :
+  wf_itvs l -> sorted_ts l -> (forall i, In i l -> lo <= fst i /\ snd i <= hi) ->
+  forall i, In i (merge_sorted l) -> lo <= fst i /\ snd i <= hi.
+Proof.
+  intros Hw Hs Hb. destruct l as [|[s e] r]; [intros i []|]. unfold merge_sorted.
+  inversion Hw as [|? ? Hse Hw']; subst. simpl in Hse.
+  rewrite merge_aux_simple by assumption.
+  pose proof (Hb (s, e) (or_introl eq_refl)) as [Hs1 Hs2]. simpl in Hs1, Hs2.
+  assert (F : Forall (fun i => lo <= fst i /\ snd i <= hi) (smerge_aux s e r)).
+  { apply smerge_bounds; auto. rewrite Forall_forall. intros i Hi.
+    unfold wf_itvs in Hw'. rewrite Forall_forall in Hw'.
+    specialize (Hb i (or_intror Hi)). specialize (Hw' i Hi). lia. }
+  rewrite Forall_forall in F. exact F.
+Qed.
